@@ -11,6 +11,7 @@
 package c14
 
 import (
+	"time"
 	"bytes"
 	"fmt"
 	"io"
@@ -56,6 +57,9 @@ func gen(g *kernel.Rng, seed uint64, tier string) *kernel.Plan {
 	p.Cfg["readapi"] = int64(g.Pick(3, 3, 2)) // 0 ReadMessage, 1 NextReader+ReadAll, 2 NextReader + a partial read, then on to the next message
 	p.Cfg["cut"] = -1
 	p.Cfg["limit"] = 0
+	p.Cfg["comp"] = int64(g.Pick(4, 1))   // permessage-deflate negotiated (the stub sends no compressed message)
+	p.Cfg["appwdl"] = int64(g.Pick(4, 1)) // the application's own write deadline has already passed
+	p.Cfg["hst"] = g.OneOf(0, 0, 0, 200, 3000) // handshake timeout (ms); the session then idles longer than that before the first frame
 	var sizes []int64
 	if g.Bool(0.25) {
 		// short uniformly random sequences over the abstract alphabet
@@ -153,6 +157,18 @@ func gen(g *kernel.Rng, seed uint64, tier string) *kernel.Plan {
 		// partial reads hand out a prefix before the rest of the message has
 		// been looked at: kept apart from cuts and limits
 		p.Cfg["cut"], p.Cfg["limit"] = -1, 0
+	}
+	if p.Cfg["comp"] != 0 {
+		for i := range p.Ops {
+			// RSV1 alone on the first frame of a data message would announce a
+			// compressed message; RSV1 alone on other frames is forbidden by
+			// RFC 7692 but not among the rules the statement lists (the library,
+			// like upstream, lets it pass): the stub keeps to RSV2/RSV3, which are
+			// a violation whatever was negotiated
+			if f := &p.Ops[i]; f.N[iRsv]&7 == 4 { // 4 = RSV1
+				f.N[iRsv] = g.OneOf(5, 6, 7)
+			}
+		}
 	}
 	p.Tape = kernel.GenTape(g, g.Range(0, 100), 0.25)
 	p.TapeSeed = g.U64() | 1
@@ -477,7 +493,38 @@ func run(p *kernel.Plan) (res *kernel.Result) {
 	} else {
 		o.ServerRB = int(p.C("rb"))
 	}
+	if p.C("comp") != 0 {
+		o.ClientComp, o.ServerComp = true, true
+		for _, f := range frames {
+			if f.rsv == 4 {
+				res.Invalid = true // RSV1 alone: a compressed message, or a frame the statement's rules do not cover
+				return
+			}
+		}
+	}
+	hst := time.Duration(p.C("hst")) * time.Millisecond
+	if hst < 0 || hst > time.Hour {
+		res.Invalid = true
+		return
+	}
+	o.HandshakeTimeout = hst
 	pr := wsx.NewPair(s, tape, o)
+	pr.CC.EnforceReadDeadline, pr.SC.EnforceReadDeadline = true, true
+	// with a handshake timeout configured the session idles longer than that
+	// before the peer's first frame: a deadline armed for the handshake must be gone
+	idled := &flagc{}
+	if hst > 0 {
+		done := false
+		s.OnIdle = func() bool {
+			if done {
+				return false
+			}
+			done = true
+			s.Sleep(hst + time.Second)
+			idled.set()
+			return true
+		}
+	}
 	type gotMsg struct {
 		typ     int
 		b       []byte
@@ -510,6 +557,11 @@ func run(p *kernel.Plan) (res *kernel.Result) {
 		c := under
 		if limit > 0 {
 			c.SetReadLimit(limit)
+		}
+		if p.C("appwdl") != 0 {
+			// left over from the application's last write; the frames the reader
+			// sends on its own (pong, close, 1002) are not the application's writes
+			c.SetWriteDeadline(time.Now().Add(-time.Second))
 		}
 		for {
 			var typ int
@@ -571,6 +623,9 @@ func run(p *kernel.Plan) (res *kernel.Result) {
 			if !pr.ServerDone().Ready() {
 				t.Block("wait-server", pr.ServerDone())
 			}
+			if hst > 0 {
+				t.Block("idle-after-handshake", idled)
+			}
 			feed()
 			readLoop(t)
 		})
@@ -585,6 +640,9 @@ func run(p *kernel.Plan) (res *kernel.Result) {
 			under = pr.Server
 			if !pr.ClientDone().Ready() {
 				t.Block("wait-client", pr.ClientDone())
+			}
+			if hst > 0 {
+				t.Block("idle-after-handshake", idled)
 			}
 			feed()
 			readLoop(t)
@@ -761,3 +819,8 @@ var Check = &kernel.Check{
 func TestCheck(t *testing.T) { kernel.Drive(t, Check) }
 
 var _ = simnet.SegOne
+
+type flagc struct{ v int32 }
+
+func (f *flagc) Ready() bool { return f.v != 0 }
+func (f *flagc) set()        { f.v = 1 }
